@@ -782,3 +782,22 @@ Proof.
         eapply Permutation_in; [apply Permutation_sym; exact P1|right]. eapply Permutation_in; [exact P2|exact Hy].
     + unfold pop in E. destruct (arr q); [split; [reflexivity|constructor]|discriminate].
 Qed.
+
+(* ---------- a lazy change followed by an immediate change of the same bar ---------- *)
+Lemma set_set_same (a : list elt) : forall i x y, set (set a i x) i y = set a i y.
+Proof. induction a as [|z a IH]; intros [|i] x y; cbn [set]; try reflexivity. rewrite IH. reflexivity. Qed.
+
+Lemma set_priority_twice q0 i p p' : i < length (arr q0) -> set_priority (set_priority q0 i p) i p' = set_priority q0 i p'.
+Proof.
+  intros Hi. unfold set_priority. cbn [arr idx]. rewrite get_set_same by exact Hi. cbn [fst]. rewrite set_set_same. reflexivity.
+Qed.
+
+(* h_fix with lazy = true only stores the new priority; if the heap was in order before, a following h_fix of the SAME bar with
+   lazy = false (heap.Fix at that bar's index) puts the whole heap back in order, whatever the two priorities are: the bar is the
+   only element out of place *)
+Theorem lazy_then_immediate_restores_order q0 i p p' :
+  hp (arr q0) (length (arr q0)) -> i < length (arr q0) ->
+  let q := set_priority (set_priority q0 i p) i p' in
+  hp (arr (fix_at q i)) (length (arr q0)) /\ Permutation (arr (fix_at q i)) (arr q) /\
+  length (arr (fix_at q i)) = length (arr q0).
+Proof. intros H Hi. rewrite (set_priority_twice q0 i p p' Hi). apply fix_ok; assumption. Qed.
